@@ -26,29 +26,8 @@ use vcf::variant::io::Write as _;
 // ------------------------------------------------------------------------------------------------
 
 fn header_strategy(tier: Tier) -> BoxedStrategy<VarHeader> {
-    let base = Mode { extended_numbers_permille: 12, ..Mode::vcf_full() };
-    let with_idx = Mode { idx: IdxMode::Arbitrary, ..base.clone() };
-    let nat_idx = Mode { idx: IdxMode::Natural, ..base.clone() };
-    prop_oneof![
-        70 => var::header(tier, &base),
-        20 => var::header(tier, &with_idx),
-        10 => var::header(tier, &nat_idx),
-    ]
-    .boxed()
-}
-
-fn strip_idx(h: &VarHeader) -> VarHeader {
-    let mut h = h.clone();
-    for d in h.infos.iter_mut().chain(h.formats.iter_mut()) {
-        d.idx = None;
-    }
-    for d in h.filters.iter_mut() {
-        d.idx = None;
-    }
-    for c in h.contigs.iter_mut() {
-        c.idx = None;
-    }
-    h
+    // Mode::vcf_full() draws IDX per header: none 50 %, natural 15 %, arbitrary 35 %
+    var::header(tier, &Mode { extended_numbers_permille: 12, ..Mode::vcf_full() })
 }
 
 fn write_header_text(h: &vcf::Header) -> Result<Vec<u8>, Vec<Fail>> {
@@ -98,11 +77,7 @@ fn check_header(c: &VarHeader) -> Verdict {
     let back = VarHeader::from_noodles(&parsed);
     let want = c.normalised();
     if back != want {
-        if has_idx(c) && back == strip_idx(&want) {
-            fails.push("c09.header.idx-not-written", format!("IDX fields are lost: the header writer never emits IDX; e.g. text {:?}", trunc(s, 300)));
-        } else {
-            fails.push("c09.header.roundtrip", format!("parse(write(h)) != h: {}; text: {:?}", header_diff(&want, &back), trunc(s, 600)));
-        }
+        fails.push("c09.header.roundtrip", format!("parse(write(h)) != h: {}; text: {:?}", header_diff(&want, &back), trunc(s, 600)));
     } else if parsed != h {
         fails.push("c09.header.roundtrip-eq", "models are equal but noodles' Header values compare unequal".to_string());
     }
@@ -117,7 +92,7 @@ fn check_header(c: &VarHeader) -> Verdict {
     }
     // write(parse(t)) = t
     let text2 = write_header_text(&parsed)?;
-    if text2 != text && !(has_idx(c) && back == strip_idx(&want)) {
+    if text2 != text {
         fails.push("c09.header.rewrite", format!("write(parse(t)) != t: {:?} vs {:?}", trunc(&String::from_utf8_lossy(&text2), 400), trunc(s, 400)));
     }
     // the reader must stop exactly after the header
@@ -343,7 +318,8 @@ pub fn indep_parse_line(h: &VarHeader, line: &str) -> Result<VarRecord, String> 
 // ------------------------------------------------------------------------------------------------
 
 fn doc_strategy(tier: Tier) -> BoxedStrategy<VarDoc> {
-    let full = Mode { hazard_permille: 10, ..Mode::vcf_full() };
+    // (VCF text has no gated value class; `hazard_permille` only concerns Target::Bcf)
+    let full = Mode::vcf_full();
     let with_samples = Mode { samples: SamplesMode::Always, ..full.clone() };
     prop_oneof![2 => var::document(tier, &full), 1 => var::document(tier, &with_samples)].boxed()
 }
@@ -524,17 +500,7 @@ fn check_doc(doc: &VarDoc) -> Verdict {
                 }
             }
             Err(e) => {
-                let known_class = empty_row && e.contains("empty column");
-                let sig = if known_class { "c09.writer.empty-sample-row".to_string() } else { "c09.writer.ungrammatical-line".to_string() };
-                fails.push(sig, format!("record {i}: the written line is not grammatical VCF: {e}; line {:?}", trunc(line, 400)));
-                if known_class {
-                    // the line is not VCF: what the readers make of it says nothing; keep them in step
-                    let mut rb = vcf::variant::RecordBuf::default();
-                    let _ = reader.read_record_buf(&header2, &mut rb);
-                    let mut lazy = vcf::Record::default();
-                    let _ = lazy_reader.read_record(&mut lazy);
-                    continue;
-                }
+                fails.push("c09.writer.ungrammatical-line", format!("record {i}: the written line is not grammatical VCF: {e}; line {:?}", trunc(line, 400)));
             }
         }
 
@@ -548,7 +514,7 @@ fn check_doc(doc: &VarDoc) -> Verdict {
             Ok(_) => Some(VarRecord::from_record_buf(&rb)),
             Err(e) => {
                 let chain = std::error::Error::source(&e).map(|s| format!("{e}: {s}")).unwrap_or_else(|| e.to_string());
-                let sig = if reserved_char && chain.contains("invalid") { "c09.reader.percent-encoded-character-rejected" } else if empty_row { "c09.reader.empty-sample-row" } else { "c09.reader.rejects-written-line" };
+                let sig = "c09.reader.rejects-written-line";
                 fails.push(sig, format!("record {i}: read_record_buf rejects the writer's line: {chain}; line {:?}", trunc(line, 400)));
                 None
             }
@@ -562,7 +528,7 @@ fn check_doc(doc: &VarDoc) -> Verdict {
             match w2.write_variant_record(&header2, &rb) {
                 Ok(()) => {
                     if w2.get_ref() != line_nl {
-                        fails.push(if empty_row { "c09.rewrite.empty-sample-row" } else { "c09.rewrite" }, format!("record {i}: write(parse(line)) != line: {:?} vs {:?}", trunc(&String::from_utf8_lossy(w2.get_ref()), 300), trunc(line, 300)));
+                        fails.push("c09.rewrite", format!("record {i}: write(parse(line)) != line: {:?} vs {:?}", trunc(&String::from_utf8_lossy(w2.get_ref()), 300), trunc(line, 300)));
                     }
                 }
                 Err(e) => fails.push("c09.rewrite", format!("record {i}: the parsed record cannot be written: {e}")),
@@ -610,8 +576,7 @@ fn check_doc(doc: &VarDoc) -> Verdict {
                 }
             }
             Err(e) => {
-                let sig = if empty_row { "c09.lazy.empty-sample-row" } else { "c09.lazy.accessor-error" };
-                fails.push(sig, format!("record {i}: a lazy accessor fails on the writer's line: {e}; line {:?}", trunc(line, 400)));
+                fails.push("c09.lazy.accessor-error", format!("record {i}: a lazy accessor fails on the writer's line: {e}; line {:?}", trunc(line, 400)));
             }
         }
         match vcf::variant::RecordBuf::try_from_variant_record(&header2, &lazy) {
@@ -633,7 +598,7 @@ fn check_doc(doc: &VarDoc) -> Verdict {
         match w3.write_record(&header2, &lazy) {
             Ok(()) => {
                 if w3.get_ref() != line_nl {
-                    fails.push(if empty_row { "c09.rewrite.empty-sample-row" } else { "c09.lazy.rewrite" }, format!("record {i}: writing the lazy record gives {:?}, the line was {:?}", trunc(&String::from_utf8_lossy(w3.get_ref()), 300), trunc(line, 300)));
+                    fails.push("c09.lazy.rewrite", format!("record {i}: writing the lazy record gives {:?}, the line was {:?}", trunc(&String::from_utf8_lossy(w3.get_ref()), 300), trunc(line, 300)));
                 }
             }
             Err(e) => {
@@ -717,8 +682,8 @@ fn check_doc(doc: &VarDoc) -> Verdict {
         l(strs().any(|s| s.chars().any(|c| c.is_ascii_control())), "string-with-control");
         l(strs().any(|s| !s.is_ascii()), "string-non-ascii");
         l(strs().any(|s| s == "."), "string-lone-dot");
-        l(reserved_char, "hazard:character-needs-encoding");
-        l(empty_row, "hazard:empty-sample-row");
+        l(reserved_char, "character-needs-percent-encoding");
+        l(empty_row, "sample-column-dot");
         l(!model.samples.is_empty(), "samples");
         l(hm.samples.is_empty(), "no-samples");
         l(model.format.first().map(|k| k == "GT").unwrap_or(false), "GT");
